@@ -298,14 +298,14 @@ def run(c):
     c.sample({"bit_flips": fr["flips"], "all_bits_of": "%d (entry, region) pairs of segments with <= 3 entries" % fr["exhaustive_cases"]})
 
     # ---- 4. RPC conversion decision table --------------------------------------------------------
-    r = c.tlc(SD, "MC_RpcConv", cfg="MC_RpcConv.cfg", timeout=1200, coverage=False)
+    r = c.tlc(SD, "MC_RpcConv", cfg="MC_RpcConv.cfg", timeout=3600, coverage=False)
     cells = c.printed_json(r, "CELL")
     if len(cells) < 1000:
         c.fail_tool("RpcConv table printed only %d cells" % len(cells))
     cinp = os.path.join(c.work, "rpc_in.ndjson")
     coutp = os.path.join(c.work, "rpc_out.ndjson")
     write_ndjson(cinp, cells)
-    rc, so = c.sh([binp, "rpc", cinp, coutp], timeout=1200)
+    rc, so = c.sh([binp, "rpc", cinp, coutp], timeout=3600)
     if rc != 0:
         c.fail_tool("rpc harness failed rc=%s %s" % (rc, (so or "")[-500:]))
     rres = read_ndjson(coutp)
